@@ -1788,7 +1788,7 @@ def pp_total_run(fns, table, comb):
     # If it accepted the `/` of `//` or `/*`, a comment after plain text would become part of a NotDirective node and survive
     # strip_comments (C18), and a directive name inside it would be taken for a directive (C04); a swallowed backtick hides a directive from every arm (C04, C05, C10, C11); a swallowed string or
     # escaped-identifier opener lets the text inside be read as comments or directives (C18, C06)
-    for b1, b2s, what, props in ((ord('/'), (ord('/'), ord('*')), 'the `/` that opens a comment', ['C18', 'C04']),
+    for b1, b2s, what, props in ((ord('/'), (ord('/'), ord('*')), 'the `/` that opens a comment', ['C18', 'C04', 'C11']),
                                  (ord('`'), [None] + list(range(256)), 'a backtick', ['C04', 'C05', 'C10', 'C11']),
                                  (ord('"'), [None] + list(range(256)), 'the quote that opens a string literal', ['C18', 'C06']),
                                  (ord('\\'), [None] + list(range(256)), 'the backslash that opens an escaped identifier', ['C18', 'C06'])):
